@@ -169,23 +169,23 @@ type op struct {
 	// Select([]string{a, b}, c) | "slice+slice" Select([]string{a}, []string{b, c}).
 	// omitJoin: "" = Omit(a, b, c); otherwise ONE string holding the names joined by this separator
 	// (a comma with optional blanks around it), Omit("a, b, c")
-	selForm  string
-	omitJoin string
-	selMode      string
-	recs         []*rec
-	isMap        bool
-	valPtr       bool
-	elemPtr      bool
-	batch        int
-	doCols       []int
-	doAssign     []assign
-	col          nameRef
-	hooks        bool // a hook-running update finisher
-	saveAll      bool
-	dropKey      bool  // a create whose records carry keys while the key column is omitted / not selected
-	chainOrder   []int // order of the chain calls Model, Where, Select, Omit, Clauses (nil = this order)
-	reordered    bool
-	forms        map[string]bool
+	selForm    string
+	omitJoin   string
+	selMode    string
+	recs       []*rec
+	isMap      bool
+	valPtr     bool
+	elemPtr    bool
+	batch      int
+	doCols     []int
+	doAssign   []assign
+	col        nameRef
+	hooks      bool // a hook-running update finisher
+	saveAll    bool
+	dropKey    bool  // a create whose records carry keys while the key column is omitted / not selected
+	chainOrder []int // order of the chain calls Model, Where, Select, Omit, Clauses (nil = this order)
+	reordered  bool
+	forms      map[string]bool
 }
 
 // ---- generator ----------------------------------------------------------------------
